@@ -23,7 +23,7 @@ from checks import _suppr as S
 
 MALFORMED = ["(", "a[", "*a", "a{"]
 OPTSETS = [[], ["--redundant", "--harmless"], ["--leaf-changes-only"]]
-STRATA = [("one-property", "tfv", (1, 2, 4, 5), 3, 150), ("type-kind-location", "t", (1, 4, 5, 6), 2, 80), ("binaries", "tfvF", (1, 7, 8), 2, 60),
+STRATA = [("pattern-only", "tfv", (2,), 1, 30), ("one-property", "tfv", (1, 2, 4, 5), 3, 150), ("type-kind-location", "t", (1, 4, 5, 6), 2, 80), ("binaries", "tfvF", (1, 7, 8), 2, 60),
           ("all", "tfvF", tuple(range(1, 11)), 3, 200)]
 KINDS = {"t": "type", "f": "function", "v": "variable", "F": "file"}
 
@@ -78,7 +78,7 @@ def main():
                             S.gen_sections(c, ngen, [KINDS[k] for k in kinds], fields=fields, odds=odds, name="sec-" + name))))
     got = dict(vf.pmap(lambda j: (j[0], j[1]()), jobs, jobs=6))
     cases = got.pop("cases")
-    pool = [(n, s) for n, *_ in STRATA for s in got[n]]
+    pools = [(n, got[n]) for n, *_ in STRATA if got[n]]
     S.tick(c, "generated")
     bad = sorted(S.invalid_patterns(c, MALFORMED))
     comps = ["gcc", "clang"] if c.thorough else ["gcc"]
@@ -101,7 +101,8 @@ def main():
             mp = absent_mapping(case, rng) if k % 3 else real_mapping(case, ifaces, types, rng)
             secs, names = [], []
             for _ in range(nsec):
-                stratum, sec = rng.choice(pool)
+                stratum, pool = rng.choice(pools)        # a stratum first, then a section of it
+                sec = rng.choice(pool)
                 s = S.instantiate(sec, mp)
                 for key in ("name_regexp", "name_not_regexp", "file_name_regexp", "soname_regexp"):
                     if s[key]["k"] == "invalid":
